@@ -15,9 +15,7 @@ def run(res, tier):
         copy_specs(tmp)
         r = run_tlc(tmp, "L4Throttle.tla", "L4Throttle_ok.cfg", timeout=900)
         tlc_ok(r, "L4Throttle ok")
-        rm = run_tlc(tmp, "L4Throttle.tla", "L4Throttle_mut.cfg", timeout=900)
-        if not any("Bound" in e for e in rm["errors"]):
-            raise Inconclusive("self-test: TLC no longer finds the bound violation when the limiter is charged after the read")
+        rm = run_tlc_expect(tmp, "L4Throttle.tla", "L4Throttle_mut.cfg", ["Bound"], "TLC no longer finds the bound violation when the limiter is charged after the read", timeout=900)
         cov.update(states=r["distinct"], transitions=r["generated"],
                    model_selftest="BoundLocal/BoundTotal hold on the token-bucket model, fail when the read happens before the wait")
         g = run_tlc(tmp, "L4ThrottleGrid.tla", f"L4ThrottleGrid_{tier}.cfg", workers=1, timeout=300)
